@@ -483,7 +483,7 @@ def _select(ck, p):
                 bad.append((keyname(p, g), g.loc(t["ln"]), _m(t)))
     if bad:
         fn, where, m = bad[0]
-        ck.refuted(rule, "from_lint:%s" % fn, where, "%s selects tokens with %s, which assumes the token vector is sorted by position; Markdown documents are not (the zero-width ParagraphBreak of a block sits at the start of the block's last text chunk), so which tokens are hashed depends on the size of the rest of the document and an ignored lint comes back after an edit elsewhere" % (fn, m))
+        ck.undecided(rule, "from_lint:%s" % fn, where, "%s selects tokens with %s, which assumes the token vector is sorted by position: no rule here establishes that for every front end (zero-width tokens are exempt from the order clause of C02; until fix e7b4a9f the Markdown parser put a block's break in front of the block's last run of text, and then which tokens were hashed depended on the rest of the document) - whether an ignored lint keeps its context hash after an edit elsewhere is not decided" % (fn, m))
     else:
         ck.proved(rule, "from_lint:token-selection", f.span, "%d Document functions reachable from from_lint; none uses partition_point / binary_search on the tokens" % len(reached))
 
